@@ -44,6 +44,7 @@ func main() {
 		{"SplitTailGen.v", genSplitTail},
 		{"TmsData.v", genTmsData},
 		{"CliGen.v", genCli},
+		{"PipeGen.v", genPipe},
 	}
 	failed := false
 	for _, g := range gens {
